@@ -135,17 +135,24 @@ fn clamp_reference_sequence_context(
 fn set_mates(records: &mut [Record]) {
     assert!(!records.is_empty());
 
-    let mut indices = HashMap::new();
-    let mut i = records.len() - 1;
+    let mut templates: HashMap<_, Vec<usize>> = HashMap::new();
 
-    loop {
-        let record = &mut records[i];
+    for (i, record) in records.iter_mut().enumerate() {
+        set_detached(record);
+
         let flags = record.bam_flags;
 
-        if flags.is_segmented() && !flags.is_secondary() {
-            let name = record.name.as_ref().map(|name| name.to_owned());
+        // A supplementary alignment is not a separate segment of the template.
+        if flags.is_segmented() && !flags.is_secondary() && !flags.is_supplementary() {
+            templates.entry(record.name.clone()).or_default().push(i);
+        }
+    }
 
-            if let Some(j) = indices.insert(name, i) {
+    for indices in templates.values() {
+        if indices.len() > 1 && mates_are_resolvable(records, indices) {
+            for pair in indices.windows(2) {
+                let (i, j) = (pair[0], pair[1]);
+
                 let mid = i + 1;
                 let (left, right) = records.split_at_mut(mid);
 
@@ -153,23 +160,80 @@ fn set_mates(records: &mut [Record]) {
                 let mate = &mut right[j - mid];
 
                 set_downstream_mate(i, record, j, mate);
-            } else {
-                set_detached(record);
             }
-        } else {
-            set_detached(record);
         }
-
-        if i == 0 {
-            break;
-        }
-
-        i -= 1;
     }
+}
+
+// Returns whether the reader resolves the mate fields of the given segments to the fields they
+// have.
+//
+// The flags, mate reference sequence ID, mate alignment start, and template length of a record
+// with a mate in the same slice are not stored. The reader sets them from the next segment (the
+// first one for the last segment), and calculates the template length from the first and last
+// segments. Records that do not have such fields must be stored as detached to be read back
+// unchanged, e.g., mates on different reference sequences, which have a template length of 0.
+fn mates_are_resolvable(records: &[Record], indices: &[usize]) -> bool {
+    let first = &records[indices[0]];
+    let last = &records[indices[indices.len() - 1]];
+    let template_length = calculate_template_length(first, last);
+
+    indices.iter().enumerate().all(|(k, &i)| {
+        let record = &records[i];
+        let mate = &records[indices[(k + 1) % indices.len()]];
+
+        let expected_template_length = if k == 0 {
+            template_length
+        } else {
+            -template_length
+        };
+
+        record.bam_flags.is_mate_reverse_complemented() == mate.bam_flags.is_reverse_complemented()
+            && record.bam_flags.is_mate_unmapped() == mate.bam_flags.is_unmapped()
+            && record.mate_reference_sequence_id == mate.reference_sequence_id
+            && record.mate_alignment_start == mate.alignment_start
+            && record.template_length == expected_template_length
+    })
+}
+
+// This is the template length the reader calculates.
+fn calculate_template_length(record: &Record, mate: &Record) -> i32 {
+    fn alignment_end(record: &Record) -> Option<Position> {
+        // The features of an unmapped record are not written.
+        let span = if record.bam_flags.is_unmapped() {
+            record.read_length
+        } else {
+            record.alignment_span()
+        };
+
+        record
+            .alignment_start
+            .and_then(|start| Position::new(usize::from(start) + span - 1))
+    }
+
+    let Some(start) = record
+        .alignment_start
+        .min(mate.alignment_start)
+        .map(usize::from)
+    else {
+        return 0;
+    };
+
+    let Some(end) = alignment_end(record)
+        .max(alignment_end(mate))
+        .map(usize::from)
+    else {
+        return 0;
+    };
+
+    let len = start.abs_diff(end) + 1;
+
+    i32::try_from(len).unwrap_or(i32::MAX)
 }
 
 fn set_downstream_mate(i: usize, record: &mut Record, j: usize, mate: &mut Record) {
     record.mate_distance = Some(j - i - 1);
+    record.cram_flags.remove(Flags::IS_DETACHED);
     record.cram_flags.insert(Flags::MATE_IS_DOWNSTREAM);
     mate.cram_flags.remove(Flags::IS_DETACHED);
 }
@@ -388,6 +452,106 @@ mod tests {
             clamp_reference_sequence_context(&header, context),
             ReferenceSequenceContext::some(0, Position::try_from(5)?, Position::try_from(8)?)
         );
+
+        Ok(())
+    }
+
+    #[test]
+    fn test_set_mates() -> Result<(), Box<dyn std::error::Error>> {
+        use sam::alignment::record::Flags as BamFlags;
+
+        fn build_pair() -> Result<Vec<Record>, noodles_core::position::TryFromIntError> {
+            Ok(vec![
+                Record {
+                    bam_flags: BamFlags::SEGMENTED
+                        | BamFlags::MATE_REVERSE_COMPLEMENTED
+                        | BamFlags::FIRST_SEGMENT,
+                    reference_sequence_id: Some(0),
+                    read_length: 4,
+                    alignment_start: Some(Position::try_from(1)?),
+                    name: Some("r0".into()),
+                    mate_reference_sequence_id: Some(0),
+                    mate_alignment_start: Some(Position::try_from(5)?),
+                    template_length: 8,
+                    ..Default::default()
+                },
+                Record {
+                    bam_flags: BamFlags::SEGMENTED
+                        | BamFlags::REVERSE_COMPLEMENTED
+                        | BamFlags::LAST_SEGMENT,
+                    reference_sequence_id: Some(0),
+                    read_length: 4,
+                    alignment_start: Some(Position::try_from(5)?),
+                    name: Some("r0".into()),
+                    mate_reference_sequence_id: Some(0),
+                    mate_alignment_start: Some(Position::try_from(1)?),
+                    template_length: -8,
+                    ..Default::default()
+                },
+            ])
+        }
+
+        fn is_detached(record: &Record) -> bool {
+            record.cram_flags.is_detached()
+                && !record.cram_flags.mate_is_downstream()
+                && record.mate_distance.is_none()
+        }
+
+        let mut records = build_pair()?;
+        set_mates(&mut records);
+        assert!(!records[0].cram_flags.is_detached());
+        assert!(records[0].cram_flags.mate_is_downstream());
+        assert_eq!(records[0].mate_distance, Some(0));
+        assert!(!records[1].cram_flags.is_detached());
+        assert!(!records[1].cram_flags.mate_is_downstream());
+        assert!(records[1].mate_distance.is_none());
+
+        // The mates are on different reference sequences.
+        let mut records = build_pair()?;
+        records[0].mate_reference_sequence_id = Some(1);
+        records[0].template_length = 0;
+        records[1].reference_sequence_id = Some(1);
+        records[1].template_length = 0;
+        set_mates(&mut records);
+        assert!(records.iter().all(is_detached));
+
+        // The template length is not the one the reader calculates.
+        let mut records = build_pair()?;
+        records[0].template_length = 0;
+        records[1].template_length = 0;
+        set_mates(&mut records);
+        assert!(records.iter().all(is_detached));
+
+        // The first segment is not the leftmost one.
+        let mut records = build_pair()?;
+        records.reverse();
+        set_mates(&mut records);
+        assert!(records.iter().all(is_detached));
+
+        // The mate alignment start is not the alignment start of the mate.
+        let mut records = build_pair()?;
+        records[1].mate_alignment_start = Some(Position::try_from(2)?);
+        set_mates(&mut records);
+        assert!(records.iter().all(is_detached));
+
+        // The mate flags are not the flags of the mate.
+        let mut records = build_pair()?;
+        records[0]
+            .bam_flags
+            .remove(BamFlags::MATE_REVERSE_COMPLEMENTED);
+        set_mates(&mut records);
+        assert!(records.iter().all(is_detached));
+
+        // A supplementary alignment is not a segment.
+        let mut records = build_pair()?;
+        let mut record = records[0].clone();
+        record.bam_flags.insert(BamFlags::SUPPLEMENTARY);
+        records.push(record);
+        set_mates(&mut records);
+        assert!(!records[0].cram_flags.is_detached());
+        assert_eq!(records[0].mate_distance, Some(0));
+        assert!(!records[1].cram_flags.is_detached());
+        assert!(is_detached(&records[2]));
 
         Ok(())
     }
